@@ -891,6 +891,66 @@ func (c *Ctx) r0117(pk *packages.Package) {
 		sort.Strings(extra)
 		c.R.Check(len(extra) == 0 && len(got) > 0, rule, "js."+spec.fn+"/statement kinds", c.pos(fd), "only "+joinSorted(spec.allowed), spec.fn+" also accepts "+strings.Join(extra, ", ")+": "+spec.why+", so the rewrite built on it changes what runs (`if(a){x:{f();break x}}else g();h()` would run g; `a.b?a.b:c` → `a.b||c` calls a getter once)")
 	}
+	// the licence itself: whatever predicates the condition in front of `ifStmt.Else = nil` calls, directly or through other
+	// functions of the package, they look only at blocks and unconditional jumps
+	if fd := c.fn(rule, pk, "optimizeStmtList"); fd != nil {
+		g := c.graph(pk, fd)
+		allowed := map[string]bool{"BlockStmt": true, "ReturnStmt": true, "ThrowStmt": true, "BranchStmt": true}
+		var kinds func(d *ast.FuncDecl, depth int, seen map[*ast.FuncDecl]bool, out map[string]bool)
+		kinds = func(d *ast.FuncDecl, depth int, seen map[*ast.FuncDecl]bool, out map[string]bool) {
+			if d == nil || d.Body == nil || seen[d] || depth > 3 {
+				return
+			}
+			seen[d] = true
+			for t := range typesIn(d) {
+				out[t] = true
+			}
+			ast.Inspect(d.Body, func(z ast.Node) bool {
+				if ce, ok := z.(*ast.CallExpr); ok {
+					if _, dd := c.calleeDecl(info, ce); dd != nil {
+						kinds(dd, depth+1, seen, out)
+					}
+				}
+				return true
+			})
+		}
+		n := 0
+		for _, y := range g.Nodes {
+			as, ok := y.Stmt.(*ast.AssignStmt)
+			if !ok || y.Kind != flow.KStmt || len(as.Lhs) != 1 || len(as.Rhs) != 1 || !isNilExpr(as.Rhs[0]) {
+				continue
+			}
+			if sel, ok := as.Lhs[0].(*ast.SelectorExpr); !ok || sel.Sel.Name != "Else" {
+				continue
+			}
+			n++
+			got := map[string]bool{}
+			for _, f := range g.DomFacts(y) {
+				if !f.Value || f.Test.Kind != flow.KCond {
+					continue
+				}
+				ast.Inspect(f.Test.Expr, func(z ast.Node) bool {
+					if ce, ok := z.(*ast.CallExpr); ok {
+						if _, dd := c.calleeDecl(info, ce); dd != nil && dd.Name.Name != "isEmptyStmt" {
+							kinds(dd, 0, map[*ast.FuncDecl]bool{}, got)
+						}
+					}
+					return true
+				})
+			}
+			var extra []string
+			for t := range got {
+				if !allowed[t] {
+					extra = append(extra, "*js."+t)
+				}
+			}
+			sort.Strings(extra)
+			c.R.Check(len(extra) == 0 && len(got) > 0, rule, fmt.Sprintf("js.optimizeStmtList/else dissolved#%d only behind an unconditional jump", n), c.pos(as), "the predicates of the condition look at "+joinSorted(got),
+				"the condition under which the else is dissolved calls predicates that also accept "+strings.Join(extra, ", ")+": control can leave such a statement without the jump (a try whose catch clause handles the exception), and the former else branch then runs although the condition was true")
+		}
+		c.R.Floor(rule, "dissolved else branches", n, 1)
+
+	}
 }
 
 // R01.18: an assignment becomes a declaration only for a `var` name.
